@@ -500,7 +500,7 @@ pub fn mon_state(f: &Flow, setup: &Setup, which: Proj, m: &mut Mon) {
     }
     // committed storage at quiescent points: after a complete check (+ its reboot wait) the
     // first Idle (start mode) / stream end (one-shot).
-    let quiescent: Vec<u64> = if setup.start_mode { f.idle.clone() } else { vec![u64::MAX] };
+    let quiescent: Vec<u64> = if f.skip_all_commit_judgement { vec![] } else if setup.start_mode { f.idle.clone() } else { vec![u64::MAX] };
     for q in quiescent {
         if q == u64::MAX && !f.ended {
             continue;
